@@ -30,7 +30,9 @@
 (*                                                                         *)
 (* Markets are abstract (1..NMarkets); the harness concretises them per    *)
 (* route as instruments whose venue names contain a same-prefix pair, a    *)
-(* mixed-case input name and a name with digits.  Values are abstract      *)
+(* mixed-case input name and a name with digits; dated contracts include   *)
+(* expiries on a year boundary (2024-12-30, 2025-12-30) whose venue symbol *)
+(* the simulated venue renders from the calendar date.  Values are abstract*)
 (* integers (the harness renders price/amount in quarter units and time in *)
 (* half seconds from a fixed epoch).                                       *)
 (*                                                                         *)
